@@ -122,6 +122,8 @@ MODULE_SPECS = {
     "cnn2d/k1/add-layer-feasible/off-grid-bounds": lambda: EvolvableCNN([3, 12, 12], 5, **CNN_T(channel_size=[8], kernel_size=[1], stride_size=[1], layer_norm=False, min_channel_size=6, max_channel_size=20)),
     "cnn2d/bn/L2": lambda: EvolvableCNN([3, 12, 12], 5, **CNN_T()),
     "cnn2d/24px/stride2": lambda: EvolvableCNN([3, 24, 24], 5, **CNN_T(channel_size=[8], kernel_size=[2], stride_size=[2], layer_norm=False)),
+    # short, wide image: kernels are limited by the SMALLER spatial side of every feature map
+    "cnn2d/nonsquare/6x24": lambda: EvolvableCNN([3, 6, 24], 5, **CNN_T(channel_size=[8], kernel_size=[2], stride_size=[1], layer_norm=False)),
     "cnn2d/tuple-kernels": lambda: EvolvableCNN([3, 12, 12], 5, **CNN_T(kernel_size=[(3, 3), (3, 3)], layer_norm=False)),
     "cnn3d/int-kernels": lambda: EvolvableCNN([3, 12, 12], 5, block_type="Conv3d", sample_input=torch.zeros(1, 3, 2, 12, 12), **CNN_T(layer_norm=True)),
     "cnn3d/tuple-kernels/depth-on-layer2": lambda: EvolvableCNN([3, 12, 12], 5, block_type="Conv3d", sample_input=torch.zeros(1, 3, 2, 12, 12), **CNN_T(kernel_size=[(1, 3, 3), (2, 3, 3)], layer_norm=False)),
@@ -148,6 +150,8 @@ def _module_obs_kind(name):
         return name.split("/")[1]
     if name.startswith("cnn2d/24px"):
         return "image24"
+    if name.startswith("cnn2d/nonsquare"):
+        return "image6x24"
     return MODULE_OBS[name.split("/")[0]]
 
 
@@ -259,6 +263,8 @@ def make_obs(kind, B, phase=0.0):
         return _pat((B, 3, 12, 12), 0, 1, phase)
     if kind == "image24":
         return _pat((B, 3, 24, 24), 0, 1, phase)
+    if kind == "image6x24":
+        return _pat((B, 3, 6, 24), 0, 1, phase)
     if kind == "image3d":
         return _pat((B, 3, 2, 12, 12), 0, 1, phase)
     if kind == "seq":
